@@ -28,6 +28,13 @@ func (v *Vue) evalTemplate(ctx VueContext, nodes []*html.Node, componentData map
 
 		// Check for include attribute - handle inclusion first
 		if helpers.HasAttr(node, "include") {
+			// only attributes written literally in the template are decoded as json below;
+			// a value that comes from data (bound or interpolated) is passed on as it is
+			literal := map[string]bool{}
+			for _, attr := range node.Attr {
+				literal[attr.Key] = !strings.Contains(attr.Val, "{{")
+			}
+
 			vars, err := v.evalAttributes(ctx, node)
 			if err != nil {
 				return nil, err
@@ -37,6 +44,9 @@ func (v *Vue) evalTemplate(ctx VueContext, nodes []*html.Node, componentData map
 
 			// auto decode params as json, e.g. `data="{...}"` or `[...]`
 			for k, v := range vars {
+				if !literal[k] || literal[":"+k] || literal["v-bind:"+k] {
+					continue
+				}
 				if vs, ok := v.(string); ok {
 					if strings.HasPrefix(vs, "{") || strings.HasPrefix(vs, "[") {
 						var out any
